@@ -219,7 +219,7 @@ PROPS = {
             B("w_expr.cpp", "expr", quick=6, thorough=90, params="faults=1,more=1", oracles=["c05.", "c01.", "c02.", "c04."] + RT_LIVE),
         ],
         level_text=("Seeded sender-interpreter runs: a random expression tree (depth<=4, <=12 nodes, <=8 scripted leaves) over the real library adaptors, each node re-erased through a harness any_snd so that every edge is a tap; leaves complete inline or later on two actor threads with value/error/done and react to stop or ignore it; an external stop request is placed before start, after k yields or when a chosen leaf has started; faults: throwing callables, a throwing k-th Val copy, spurious weak-CAS failures and wake-ups; the root op state is destroyed inside the root receiver's completion in most runs. The wany=1 batches add when_any (2-3 children) to the node set: the result must be that of the first child to complete - value, error or done - where 'first' is decided by the tap order (overlapping completions: any of them), done is accepted when a stop request could be visible; its losers must see the stop request (C04 oracle). C05 oracles: a local reference model evaluated at every tap instance from the *observed* child outcomes: then/upon_*/let_* fire exactly on their channel and forward the others, throwing callables become set_error(that exception), sequence/let/finally start the next step only after the previous completed and short-circuit, when_all yields all values or the first error/done (overlapping completions: either), stop_when the source's result, done_as_optional/materialize round trips, via/on forward (done allowed only when a stop could be visible); callable invocation counts equal matching child completions."),
-        level_note=('Trusted: as C01; the model encodes doc/api_reference.md plus the precedence rules read from the code (Appendix C of DESIGN.md). repeat_effect_until and sync_wait are not in the interpreter; the more=1 batches add defer, let_value_with, let_value_with_stop_token, allocate, into_variant, variant_sender and with_allocator as (transparent) nodes.'),
+        level_note=('Trusted: as C01; the model encodes doc/api_reference.md plus the precedence rules read from the code (Appendix C of DESIGN.md). sync_wait is not in the interpreter; the more=1 batches add repeat_effect_until (1-3 rounds, optionally a throwing predicate), defer, let_value_with, let_value_with_stop_token, allocate, into_variant, variant_sender and with_allocator as (transparent) nodes.'),
         real=["just/just_error/just_done, then, upon_error, upon_done, let_value, let_error, let_done, finally, sequence, when_all (2-3), stop_when, unstoppable, via, on, with_query_value, materialize+dematerialize, done_as_optional, let_value_with_stop_source", "single_thread_context/manual_event_loop, inline_scheduler", "inplace_stop_source, inplace_stop_token_adapter, fused_stop_source"],
         stub=["harness leaves, taps and erased any_snd plumbing (kit/expr.hpp)", "kit::sim_stop_source", "pthread layer, heap (usim)"],
     ),
